@@ -935,6 +935,10 @@ class OpsMixin:
             k = lo.value
             if len(base.items) >= k and all(not isinstance(i, (Rep, Splice)) for i in base.items[:k]):
                 return PList(list(base.items[k:]))
+        if isinstance(base, PList) and not base.sym_elem_of and lo is None and stp is None and isinstance(hi, Cst) and isinstance(hi.value, int) and hi.value >= 0:
+            k = hi.value
+            if len(base.items) >= k and all(not isinstance(i, (Rep, Splice)) for i in base.items[:k]):
+                return PList(list(base.items[:k]))  # a prefix that lies in the concrete part
         if lo is None and hi is None and isinstance(stp, Cst) and stp.value == -1 and isinstance(base, (UList, PList, SColl, StrOp)):
             return StrOp("reversed", [base])
         desc = f"{'' if lo is None else c(lo)}:{'' if hi is None else c(hi)}" + ("" if stp is None else f":{c(stp)}")
